@@ -40,6 +40,8 @@ LawClause ==
       cc == ConformClause(c, Ref(c), o.ok, o.cls, o.v, o.heap)
       changed == {a \in 1..N0(c) : o.heap[a] # c.heap0[a]}
   IN IF cc # "" THEN cc
+     ELSE IF ~ExecRegistryLog(o.log) THEN "foreign-registry"
+     ELSE IF RouteClause(log, o.log) # "" THEN RouteClause(log, o.log)
      ELSE IF HasStar(c.steps) THEN ""            \* frame / last-write laws are stated for wildcard-free paths
      ELSE IF Len(o.heap) # N0(c) \/ Cardinality(changed) > 1 THEN "del-frame"
      ELSE IF \E a \in changed : ~o.ok \/ Len(o.heap[a].items) # Len(c.heap0[a].items) - 1 THEN "del-frame"
